@@ -106,3 +106,51 @@ PROPS["C13"] = {
     "modelled_not_verified": ["Store::write_blocks_to / ItemSlice::encode / ItemContent::encode_slice (block slicing is what the unit model abstracts away; covered by the correspondence)"],
     "assumptions": ["a snapshot taken while the store has gaps cannot be exact with a state-vector shaped snapshot: known finding"],
 }
+
+_CODEC_NOTE = "modelled: the lib0 v1 layer (coq/Codec/*.v) function by function, with the error results of the repaired Rust code; NOT modelled: the v2 column codecs (UIntOptRle / IntDiffOptRle / Rle / String table) and the v2 framing - covered by the implementation-only round trips, v1<->v2 cross checks and the C10 worker runs; JSON text inside embeds / formats is opaque to the model; f64 <-> wire-form classification of numbers is not modelled"
+PROPS["C09"] = {
+    "level": "proof", "theorems": _GEN["C09"], "theorem_kinds": {},
+    "rule": "per case: 18 varints (edge values, all widths), 4 nested Any values, an IdSet, StateVector, Snapshot, StickyIndex (binary v1/v2 + JSON), AwarenessUpdate, sync Message (every tag incl. custom 4..255) and every update of a seeded 2..3 replica history (transaction updates and full states, v1 and v2, gc and non-gc senders) plus 56 hand-made v1 updates with foreign content kinds x every origin / parent shape; 8 Yjs-generated fixtures copied from the repository's compatibility tests: decode(encode x) = x in v1 and v2, v1->v2->v1 gives the same blocks, same effect on a document, and the Coq model decodes the same v1 bytes to the same value, its own re-encoding decodes to the same blocks and has the same effect on a real document. A case is one generated bundle; all are non-trivial (distinct by index)",
+    "trusted_base": [_CODEC_NOTE], "modelled_not_verified": ["EncoderV2 / DecoderV2", "serde adaptors", "Any::Number classification"], "assumptions": [],
+}
+PROPS["C10"] = {
+    "level": "proof", "theorems": _GEN["C10"], "theorem_kinds": {},
+    "rule": "22 public decoding entry points (update v1/v2, state vector, snapshot, delete set, id map, Any, sticky index, awareness update, sync message + MessageReader, merge / diff / state-vector-from-update on encoded updates) x inputs derived from valid payloads by byte flips, random bytes, truncations, extreme varints spliced over fields, duplicated chunks, deletions, plus deep-nesting / huge-count resource inputs; every decode runs in a worker subprocess (8 MiB stack, wall-clock limit) with a counting allocator: panic, abort, crash, timeout, a single allocation request above 64*len+64 KiB, or a decoded value that cannot be re-encoded is a violation; the outcome class (ok / err) is compared with the Coq decoders for the v1-modelled entry points. Non-trivial = a mutated input that the implementation rejects (distinct by entry point and bytes)",
+    "trusted_base": [_CODEC_NOTE, "real stack depth, allocator behaviour and wall-clock time are observed by the worker runs only; the theorems bound fuel (= input length + 1), nesting depth and exclude every modelled panic site"],
+    "modelled_not_verified": ["v2 decoders", "Update::merge_updates / encode_diff on decoded garbage"], "assumptions": [],
+}
+PROPS["C15"] = {
+    "level": "proof", "theorems": _GEN["C15"], "theorem_kinds": {},
+    "rule": "seeded 2..3 replica histories with mixed gc settings and deletions (plain content, nested types, map overwrites, formatting); a gc twin and a no-gc twin are fed the same updates (v1/v2, possibly shuffled) and compared after EVERY delivery (public content, state vector, pending flag); forced gc at random points must not change content; a document rebuilt from the gc'ed replica's full state (v1, v2) equals it; every ordered pair of replicas with different gc settings is exchanged until nothing changes. Non-trivial = the history deleted something",
+    "trusted_base": [_MODEL_NOTE, "gc is modelled as a function on the unit-level document (contents of deleted items dropped, lists below deleted types removed); GCCollector / block compaction are not transcribed"],
+    "modelled_not_verified": ["GCCollector::collect", "DeleteSet::try_squash_with / squash_left_range_compaction", "ITEM_FLAG_KEEP bookkeeping of the undo manager (modelled as a predicate)"], "assumptions": [],
+}
+PROPS["C03"] = {
+    "level": "proof", "theorems": _GEN["C03"], "theorem_kinds": {},
+    "rule": "single-replica programs of 10..60 transactions x 1..4 calls, two streams (plain: text insert / push / remove_range; rich: + insert_with_attributes / format / insert_embed), arrays (insert, insert_range, push_back, push_front, remove, remove_range, nested map / text prelims edited through fresh references), maps (insert, remove, try_update, clear, nested array, get_or_init), XML children and attributes; random offset kind (UTF-16 / bytes; multi-byte and astral characters, positions on character boundaries) and gc on/off; after every transaction every root is read back and compared with plain reference structures (string with attributes per character, vector, dictionary, tree). Non-trivial = a program with more than 10 calls",
+    "trusted_base": [_MODEL_NOTE, "rich text attribute semantics (negated attributes, clean_format_gap) is NOT modelled: decided by the reference comparison only (partial)"],
+    "modelled_not_verified": ["find_position / BlockIter cursor", "SplittableString::block_offset (bytes offsets)", "squash on commit"], "assumptions": ["arguments in range"],
+}
+PROPS["C17"] = {
+    "level": "proof", "theorems": _GEN["C17"], "theorem_kinds": {},
+    "rule": "the programs of C03: after every transaction, for every live type: len vs number of iterated elements vs to_json size; get(i) vs i-th iterated element for all i and two indexes past the end; text len vs get_string units + embeds; concat(diff chunks) vs get_string; map len / keys / values / iter / contains_key / get / to_json; XML children / get(i) / first_child / attributes / get_attribute",
+    "trusted_base": [_MODEL_NOTE, "the model has one representation per sequence, so agreement of the implementation's redundant read paths (cached lengths, BlockIter, linked-list walks, DiffAssembler) is decided by the correspondence; the theorems only state that all counts derive from the same live units"],
+    "modelled_not_verified": ["Branch.block_len / content_len caches", "BlockIter", "xml TreeWalker / Siblings"], "assumptions": [],
+}
+PROPS["C14"] = {
+    "level": "proof", "theorems": _GEN["C14"], "theorem_kinds": {},
+    "rule": "2..3 replica seeded histories on the root text and root array (inserts, range inserts, deletes; deliveries in any order); sticky indexes created at random valid positions with both associations, serialised (v1 / v2 / JSON) and resolved on EVERY replica that knows the anchor after EVERY step; expected offset computed from the hook dump (number of live units left of the anchoring unit, +1 for Before on a live anchor); creation must pick the neighbouring unit as anchor and resolve to the creation index. Non-trivial = a history with at least one sticky index",
+    "trusted_base": [_MODEL_NOTE], "modelled_not_verified": ["Store::follow_redone (anchors re-created by redo)", "BlockIter::try_forward / rel"], "assumptions": ["UTF-16 offset kind"],
+}
+PROPS["C20"] = {
+    "level": "proof", "theorems": _GEN["C20"], "theorem_kinds": {},
+    "rule": "the histories of C14 with quotations of random ranges (inclusive / exclusive / unbounded ends, single element, empty) of the root array or text stored in the root map; every replica that has the quotation dereferences it after every step (unquote / get_string) and the result is compared with the live units between the boundary units in that replica's hook dump; deleting the quotation must leave the source untouched; observer firings are counted (exploratory)",
+    "trusted_base": [_MODEL_NOTE, "link bookkeeping (ITEM_FLAG_LINKED, linked_by, inheritance on split) is not modelled: the model dereferences by position"],
+    "modelled_not_verified": ["LinkSource::materialize / join_linked_range / unlink", "observer notification of quotations (counted by the harness only)"], "assumptions": [],
+}
+PROPS["C18"] = {
+    "level": "proof", "theorems": _GEN["C18"], "theorem_kinds": {},
+    "rule": "handshake: two real Awareness + DefaultProtocol peers with prior divergence (optionally a shared past); both send start(); the two FIFO channels are drained in a seeded random interleaving mixed with concurrent local edits forwarded as Update messages; at quiescence both documents are equal at item level; every message is round-tripped. awareness: 2..4 producing clients (set / re-set / clean / timeout by a third party); every permutation of <= 5 updates plus a duplicated delivery applied to an observer and to a peer with a live local state: same registers for every order, clocks monotone, local state never erased; the Coq model is compared after every apply. Non-trivial = a handshake with an edit while messages are in flight, or an awareness multiset",
+    "trusted_base": ["awareness is modelled entry by entry (coq/OpSet/Awareness.v); timestamps are excluded (injected clock)", _MODEL_NOTE],
+    "modelled_not_verified": ["Protocol::handle dispatch (exercised, not modelled)", "observer events of Awareness"], "assumptions": ["each client writes only its own awareness entry (an entry for the local client id written by someone else with a higher clock is order-sensitive: model observation apply_not_commutative_local)"],
+}
